@@ -85,6 +85,7 @@ type c15scn struct {
 	trigger    string // shutdown starts when: "started:<path>" handler of path has started; "resp:<conn>:<n>" conn has n complete responses
 	closeOnSD  bool
 	idleTO     time.Duration
+	size       byte // 0/'S': bound 1 quick, 2 thorough; 'M': 1, 1; 'L' (two connections): 0 quick, 1 thorough
 	wcap0      bool // unbuffered worker hand-off channel (what a GOMAXPROCS=1 process uses)
 }
 
@@ -199,6 +200,10 @@ func c15body(sc c15scn) func() {
 						if err != nil {
 							cc.eof = true
 							cc.readErr = err.Error()
+							o.ev("client%d connection closed: %v", ci, err)
+							if rs, rest := c15responses(cc.buf); o.shutdownCalled && len(rs) > 0 && len(rs) == len(cc.sent) && len(rest) == 0 {
+								mcrt.Covered("idle-conn-closed-by-shutdown")
+							}
 						}
 					}
 				}
@@ -234,6 +239,9 @@ func c15body(sc c15scn) func() {
 			switch f[0] {
 			case "started":
 				return c15has(o.started, f[1])
+			case "opened":
+				ci, _ := strconv.Atoi(f[1])
+				return o.conns[ci].opened
 			case "resp":
 				ci, _ := strconv.Atoi(f[1])
 				n, _ := strconv.Atoi(f[2])
@@ -392,8 +400,10 @@ func TestVerif_C15(t *testing.T) {
 		"all schedules, select choices and timer-first orders up to the deviation bound; oracle when Shutdown returns nil: Serve returned, no handler running, Dial fails, every request whose handler started has its complete 200 response on its connection, every connection was closed by the server (idle ones without waiting), a handler blocked on Done() is woken; non-trivial: executions with >=1 deviation")
 	r.Assume("mcrt shim semantics (litmus-tested)", "sync.Pool modelled as deterministic LIFO")
 	b := vrt.Pick(r, 1, 2)
+	forced := false
 	if v := os.Getenv("C15_BOUND"); v != "" {
 		b, _ = strconv.Atoi(v)
+		forced = true
 	}
 	W := func(p ...string) c15step { return c15step{op: 'w', paths: p} }
 	R := func(n int) c15step { return c15step{op: 'r', n: n} }
@@ -403,20 +413,50 @@ func TestVerif_C15(t *testing.T) {
 	slow := []c15step{W("/slow1"), E}
 	pipe := []c15step{W("/slow1", "/b2"), E}
 	late := []c15step{W("/a1"), R(1), S, W("/nap2"), E}
+	fresh := []c15step{S, W("/nap1"), E} // connection accepted before Shutdown, first request sent while it runs
+	one := func(x []c15step) [][]c15step { return [][]c15step{x} }
 	var list []c15scn
 	for _, perIP := range []int{0, 1} {
 		pn := fmt.Sprintf("perip%d/", perIP)
 		list = append(list,
-			c15scn{name: pn + "idle/bg", perIP: perIP, scripts: [][]c15step{idle}, trigger: "resp:0:1"},
-			c15scn{name: pn + "slow/bg", perIP: perIP, scripts: [][]c15step{slow}, trigger: "started:/slow1"},
-			c15scn{name: pn + "pipelined/bg", perIP: perIP, scripts: [][]c15step{pipe}, trigger: "started:/slow1"},
-			c15scn{name: pn + "late-request/bg", perIP: perIP, scripts: [][]c15step{late}, trigger: "resp:0:1"},
+			c15scn{size: 'M', name: pn + "idle/bg", perIP: perIP, scripts: one(idle), trigger: "resp:0:1"},
+			c15scn{size: 'M', name: pn + "idle-idletimeout/bg", perIP: perIP, scripts: one(idle), trigger: "resp:0:1", idleTO: 30 * time.Second},
+			c15scn{name: pn + "slow/bg", perIP: perIP, scripts: one(slow), trigger: "started:/slow1"},
+			c15scn{name: pn + "slow/ctx100ms", perIP: perIP, scripts: one(slow), trigger: "started:/slow1", ctxTimeout: 100 * time.Millisecond},
+			c15scn{name: pn + "slow/ctx1s", perIP: perIP, scripts: one(slow), trigger: "started:/slow1", ctxTimeout: time.Second},
+			c15scn{name: pn + "pipelined/bg", perIP: perIP, scripts: one(pipe), trigger: "started:/slow1"},
+			c15scn{size: 'M', name: pn + "late-request/bg", perIP: perIP, scripts: one(late), trigger: "resp:0:1"},
+			c15scn{size: 'L', name: pn + "idle+slow/bg", perIP: perIP, scripts: [][]c15step{idle, slow}, trigger: "started:/slow1"},
 		)
 	}
-	_ = b
+	list = append(list,
+		c15scn{name: "perip0/pipelined/bg/close-on-shutdown", scripts: one(pipe), trigger: "started:/slow1", closeOnSD: true},
+		c15scn{size: 'M', name: "perip0/late-request/bg/wcap0", scripts: one(late), trigger: "resp:0:1", wcap0: true},
+		c15scn{size: 'M', name: "perip0/fresh-conn-request-during-shutdown/bg", scripts: one(fresh), trigger: "opened:0"},
+		c15scn{size: 'M', name: "perip1/late-request-idletimeout/bg", perIP: 1, scripts: one(late), trigger: "resp:0:1", idleTO: 30 * time.Second},
+		c15scn{size: 'L', name: "perip0/idle+idle/bg", scripts: [][]c15step{idle, {W("/b1"), R(1), E}}, trigger: "resp:1:1"},
+		c15scn{size: 'L', name: "perip1/idle+late/ctx1s", perIP: 1, scripts: [][]c15step{idle, {W("/b1"), R(1), S, W("/nap2"), E}}, trigger: "resp:1:1", ctxTimeout: time.Second},
+	)
+	if r.Thorough() {
+		list = append(list,
+			c15scn{size: 'L', name: "perip0/slow+pipelined/bg", scripts: [][]c15step{{W("/slow0"), E}, {W("/slow1", "/b2"), E}}, trigger: "started:/slow1"},
+			c15scn{size: 'L', name: "perip1/idle+pipelined/ctx1s", perIP: 1, scripts: [][]c15step{idle, pipe}, trigger: "started:/slow1", ctxTimeout: time.Second},
+		)
+	}
 	var scs []mcx.Scenario
 	for _, sc := range list {
-		scs = append(scs, mcx.Scenario{Name: sc.name, Cfg: mcrt.Config{Bound: b, TimerFirst: true, Horizon: 6000}, Body: c15body(sc), Check: c15check(sc)})
+		bb := b
+		switch sc.size {
+		case 'M':
+			bb = 1
+		case 'L':
+			bb = b - 1
+		}
+		if forced {
+			bb = b
+		}
+		r.Set("bound:"+sc.name, fmt.Sprint(bb))
+		scs = append(scs, mcx.Scenario{Name: sc.name, Cfg: mcrt.Config{Bound: bb, TimerFirst: true, Horizon: 6000}, Body: c15body(sc), Check: c15check(sc)})
 	}
 	r.Set("preemption_bound", fmt.Sprint(b))
 	if dbg := os.Getenv("C15_DEBUG"); dbg != "" {
